@@ -310,6 +310,6 @@ def r48k(F):
     return r
 
 
-from .c09 import r26l as _r26l
+from .c09 import r26l as _r26l, r68 as _r68
 
-RULES = [r48, r48m, r48s, r57, r48k, _r26l]
+RULES = [r48, r48m, r48s, r57, r48k, _r26l, _r68]
